@@ -386,7 +386,7 @@ func (rw *rewriter) file(p *packages.Package, name string, f *ast.File) {
 							recv = p.Elem()
 						}
 						if nt, ok := recv.(*types.Named); ok && nt.Obj().Name() == "File" {
-							if to, ok := map[string]string{"Readdirnames": "FileReaddirnames", "ReadDir": "FileReadDir", "Readdir": "FileReaddir"}[fn.Name()]; ok {
+							if to, ok := map[string]string{"Readdirnames": "FileReaddirnames", "ReadDir": "FileReadDir", "Readdir": "FileReaddir", "Read": "FileRead", "ReadAt": "FileReadAt"}[fn.Name()]; ok {
 								n.Args = append([]ast.Expr{sel.X}, n.Args...)
 								n.Fun = simrtSel(to)
 								used = true
